@@ -439,8 +439,41 @@ func (c *Ctx) ruleLineSource() {
 		return
 	}
 	n := 0
-	okSource := func(e ast.Expr) bool {
+	var curFn *Fn
+	var okSource func(e ast.Expr) bool
+	okSource = func(e ast.Expr) bool {
 		e = ast.Unparen(e)
+		// a local every definition of which comes from such a source (line, column := content.LineAndColumn(i))
+		if id, ok := e.(*ast.Ident); ok && curFn != nil {
+			obj := pk.TypesInfo.Uses[id]
+			if v, isVar := obj.(*types.Var); isVar && !v.IsField() && v.Parent() != pk.Types.Scope() {
+				defs, good := 0, true
+				ast.Inspect(curFn.Decl.Body, func(m ast.Node) bool {
+					as, isAs := m.(*ast.AssignStmt)
+					if !isAs {
+						return true
+					}
+					for i, l := range as.Lhs {
+						lid, isId := ast.Unparen(l).(*ast.Ident)
+						if !isId || (pk.TypesInfo.Defs[lid] != obj && pk.TypesInfo.Uses[lid] != obj) {
+							continue
+						}
+						defs++
+						src := as.Rhs[0]
+						if len(as.Rhs) == len(as.Lhs) {
+							src = as.Rhs[i]
+						}
+						if sid, isSame := ast.Unparen(src).(*ast.Ident); isSame && pk.TypesInfo.Uses[sid] == obj {
+							good = false
+						} else if !okSource(src) {
+							good = false
+						}
+					}
+					return true
+				})
+				return defs > 0 && good
+			}
+		}
 		// NewLocation(...).Line
 		if sel, ok := e.(*ast.SelectorExpr); ok {
 			if call, ok := ast.Unparen(sel.X).(*ast.CallExpr); ok {
@@ -460,6 +493,7 @@ func (c *Ctx) ruleLineSource() {
 		if f.Pkg != pk {
 			continue
 		}
+		curFn = f
 		ast.Inspect(f.Decl.Body, func(nd ast.Node) bool {
 			switch x := nd.(type) {
 			case *ast.KeyValueExpr:
